@@ -246,7 +246,10 @@ def _reserved(chk, ctx) -> None:
         for s in T.subterms(rets[0]):
             if isinstance(s, tuple) and len(s) == 2 and s[0] == 'self' and s[1] in PLACES and s[1] not in attrs:
                 attrs.append(s[1])
-        filt = rets[0][0] == 'call' and rets[0][1] == 'filter' and rets[0][2][0] == ('const', None)
+        r0 = rets[0]
+        # filter(None, xs) is read as (x for x in xs if x)
+        filt = (r0[0] == 'call' and r0[1] == 'filter' and r0[2][0] == ('const', None)) or \
+            (r0[0] == 'comp' and len(r0[3]) == 1 and r0[2] == (r0[3][0][0],) and r0[3][0][2] == (T.truthy(r0[3][0][0]),))
         return (set(attrs), filt), fi
     for name, want in (('reserved_cards', {'burn_cards', 'mucked_cards', 'discarded_cards'}),
                        ('cards_in_play', {'board_cards', 'hole_cards'}),
